@@ -428,6 +428,9 @@ func checkMain(repo, verif string, args []string) int {
 	for _, k := range tks {
 		assumptions = append(assumptions, "trusted (assumed, not verified): "+k+" - "+w.trusted[k])
 	}
+	assumptions = append(assumptions,
+		"frame at calls: a callee is taken to write only through the parameters listed for it in frameAllowed (cmd/govc/frame.go); the frame analysis run by the C20 check verifies that table for every function of the package",
+		"append: the result is modelled as its own backing store agreeing with the destination on the destination's elements (in-place case: the destination's store gets the same contents); stores made later through the result are not propagated to the original array")
 	for _, e := range exts {
 		assumptions = append(assumptions, "external function havocked (no contract assumed): "+e)
 	}
